@@ -4,6 +4,8 @@ go 1.20
 
 require (
 	github.com/artela-network/artela-evm v0.0.0
+	github.com/artela-network/aspect-core v0.4.8-rc8
+	github.com/artela-network/aspect-runtime v0.4.8-rc8
 	github.com/ethereum/go-ethereum v1.12.0
 	github.com/holiman/uint256 v1.2.2
 )
@@ -11,8 +13,6 @@ require (
 require (
 	github.com/DataDog/zstd v1.5.2 // indirect
 	github.com/VictoriaMetrics/fastcache v1.6.0 // indirect
-	github.com/artela-network/aspect-core v0.4.8-rc8 // indirect
-	github.com/artela-network/aspect-runtime v0.4.8-rc8 // indirect
 	github.com/beorn7/perks v1.0.1 // indirect
 	github.com/bytecodealliance/wasmtime-go/v20 v20.0.0 // indirect
 	github.com/cespare/xxhash/v2 v2.2.0 // indirect
